@@ -393,6 +393,14 @@ class ExprGen:
         self.present = present                     # generated class names
         self.stats = {}
         self.bad_used = False
+        # reuse stream: sub-field objects built for an earlier operation of the history are placed
+        # into later, different operations (each at most once per operation, never nested in one another)
+        self.reuse = False
+        self.pool = []          # (class the object is a field of, model expr, name)  — from earlier operations
+        self.pending = []       # defined in the operation being generated
+        self.defs = {}          # name -> driver expression that builds the object from fresh objects
+        self.used_now = set()
+        self.in_let = False
 
     def possible(self, tname):
         t = self.tm[tname]
@@ -470,6 +478,25 @@ class ExprGen:
             d = ["alias", d, al]
         return m, d
 
+    def child_expr(self, cls, owner_type, fm, depth, edge):
+        """a sub-field; in the reuse stream it is sometimes remembered for later operations"""
+        remember = self.reuse and not self.in_let and fm[3] == "t" and self.rng.random() < 0.45
+        if remember:
+            self.in_let = True
+        m, d = self.field_expr(cls, owner_type, fm, depth, edge)
+        if remember:
+            self.in_let = False
+            name = f"o{len(self.defs)}"
+            self.defs[name] = d
+            self.pending.append((cls, m, name))
+            d = ["let", name, d]
+        return m, d
+
+    def end_operation(self):
+        self.pool += self.pending
+        self.pending = []
+        self.used_now = set()
+
     def add_fields(self, m, d, ocls, ftype, depth, edge):
         subs = self.sub_list(ocls, ftype, depth, edge)
         if subs:
@@ -492,7 +519,15 @@ class ExprGen:
         picks = rng.sample(cand, k)
         if edge and rng.random() < 0.3:
             picks.append(rng.choice(picks))          # the same field twice
-        return [self.field_expr(cls, tname, fm, depth - 1, edge) for fm in picks]
+        out = [self.child_expr(cls, tname, fm, depth - 1, edge) for fm in picks]
+        if self.reuse and not self.in_let:
+            cand = [p for p in self.pool if p[0] == cls and p[2] not in self.used_now]
+            rng.shuffle(cand)
+            for c in cand[: rng.choice([1, 1, 2])]:
+                if rng.random() < 0.8:
+                    self.used_now.add(c[2])
+                    out.insert(rng.randint(0, len(out)), (c[1], ["ref", c[2]]))
+        return out
 
     def operation(self, root_cls, root_type, depth, edge):
         fms = self.ct[root_cls]
@@ -543,3 +578,31 @@ def expr_size(e):
         return expr_size(e[1])
     subs = e[2] if k == "fields" else e[3]
     return expr_size(e[1]) + sum(expr_size(x) for x in subs)
+
+
+def expand_refs(d, defs):
+    """driver expression with let/ref -> the same expression built from fresh objects only"""
+    k = d[0]
+    if k == "ref":
+        return expand_refs(defs[d[1]], defs)
+    if k == "let":
+        return expand_refs(d[2], defs)
+    if k in ("attr", "call"):
+        return d
+    if k == "alias":
+        return ["alias", expand_refs(d[1], defs), d[2]]
+    if k == "fields":
+        return ["fields", expand_refs(d[1], defs), [expand_refs(x, defs) for x in d[2]]]
+    return ["on", expand_refs(d[1], defs), d[2], [expand_refs(x, defs) for x in d[3]]]
+
+
+def has_ref(d):
+    k = d[0]
+    if k == "ref":
+        return True
+    if k == "let":
+        return has_ref(d[2])
+    if k in ("attr", "call"):
+        return False
+    subs = [d[1]] + (d[2] if k == "fields" else d[3] if k == "on" else [])
+    return any(has_ref(x) for x in subs)
